@@ -180,20 +180,27 @@ def _fill_cm(s):
     s.n_added_records[1] = 7
 
 
+def _shrink(w1, d1, w2, d2):
+    """a small configuration with the same truth values of the relations a guard could plausibly test:
+    w1==w2, d1==d2, w1*d1==w2*d2, w1+d1==w2+d2, w1==d2, d1==w2"""
+    rel = lambda a, b, c, d: (a == c, b == d, a * b == c * d, a + b == c + d, a == d, b == c)
+    want = rel(w1, d1, w2, d2)
+    if max(w1, w2) <= 4096:
+        return w1, d1, w2, d2
+    for a in range(1, 400):
+        for c in range(1, 400):
+            if rel(a, d1, c, d2) == want:
+                return a, d1, c, d2
+    return min(w1, 4096), d1, min(w2, 4096), d2
+
+
 def real_linear(w1, d1, w2, d2):
-    (a1, b1), (a2, b2) = _small(w1, d1), _small(w2, d2)
-    if (w1 == w2) != (a1 == a2) or (d1 == d2) != (b1 == b2):
-        a2 = a1 + 1 if w1 != w2 else a1
-        b2 = b1 + 1 if d1 != d2 else b1
+    a1, b1, a2, b2 = _shrink(w1, d1, w2, d2)
     return _real_pair(lambda: CM.CountMinLinear(a1, b1), lambda: CM.CountMinLinear(a2, b2), w1 == w2 and d1 == d2, _fill_cm)
 
 
 def _real_log(cls, w1, d1, m1, r1, w2, d2, m2, r2):
-    (a1, b1), (a2, b2) = _small(w1, d1), _small(w2, d2)
-    if w1 != w2 and a1 == a2:
-        a2 = a1 + 1
-    if d1 != d2 and b1 == b2:
-        b2 = b1 + 1
+    a1, b1, a2, b2 = _shrink(w1, d1, w2, d2)
     compatible = w1 == w2 and d1 == d2 and m1 == m2 and r1 == r2
     tries = [(m1, r1, m2, r2)]
     if m1 != m2:
@@ -230,7 +237,15 @@ def real_cross_types(w, d):
 
 
 def real_hll(p1, s1, p2, s2):
-    return _real_pair(lambda: HLL.HyperLogLog(p1, s1), lambda: HLL.HyperLogLog(p2, s2), p1 == p2 and s1 == s2, lambda s: s.add(b"k"))
+    tries = [(s1, s2)]
+    if s1 != s2:
+        tries += [(2 ** 53, 2 ** 53 + 1), (2 ** 63, 2 ** 63 + 1), (2 ** 64 - 2, 2 ** 64 - 1), (2 ** 32, 0), (5, 5 + 2 ** 32)]
+    last = (True, "")
+    for (x, y) in tries:
+        last = _real_pair(lambda: HLL.HyperLogLog(p1, x), lambda: HLL.HyperLogLog(p2, y), p1 == p2 and x == y, lambda s: s.add(b"k"))
+        if not last[0]:
+            return False, f"seeds {x} vs {y}: {last[1]}"
+    return last
 
 
 def real_hh(w1, w2):
